@@ -46,6 +46,10 @@ type UploadRequest struct {
 	once sync.Once
 	temp *os.File
 	hash hash.Hash
+	// pending holds the start of a data chunk whose remainder has not been
+	// received yet. A chunk larger than the device's service info MTU is split
+	// across messages and arrives in more than one HandleInfo call.
+	pending bytes.Buffer
 }
 
 var _ serviceinfo.OwnerModule = (*UploadRequest)(nil)
@@ -84,13 +88,19 @@ func (u *UploadRequest) HandleInfo(ctx context.Context, messageName string, mess
 		if err != nil {
 			return fmt.Errorf("error creating temp file for upload of %q: %w", u.Name, err)
 		}
-		var chunk []byte
-		for {
-			if err := cbor.NewDecoder(messageBody).Decode(&chunk); errors.Is(err, io.EOF) {
+		if _, err := u.pending.ReadFrom(messageBody); err != nil {
+			return fmt.Errorf("error reading message %s: %w", messageName, err)
+		}
+		for u.pending.Len() > 0 {
+			var chunk []byte
+			r := bytes.NewReader(u.pending.Bytes())
+			if err := cbor.NewDecoder(r).Decode(&chunk); errors.Is(err, io.EOF) || errors.Is(err, io.ErrUnexpectedEOF) {
+				// Wait for the rest of the chunk
 				break
 			} else if err != nil {
 				return fmt.Errorf("error decoding message %s: %w", messageName, err)
 			}
+			u.pending.Next(u.pending.Len() - r.Len())
 			n, err := io.MultiWriter(u.temp, u.hash).Write(chunk)
 			if err != nil {
 				return fmt.Errorf("error writing upload data chunk of %q: %w", u.Name, err)
